@@ -283,3 +283,36 @@ K('C13', 'zeros-spec-popped', [(INF, "            fact = structural_zeros[cl]\n 
 T('C13', 'options-copied', [(INF, "        measurements = self.fix_measurements(measurements)\n        options['callback'] = callback", "        measurements = self.fix_measurements(measurements)\n        options = dict(options)\n        options['callback'] = callback")])
 T('C13', 'bp-deepcopy', [(GM, "        beliefs = { cl : potentials[cl].copy() for cl in potentials }", "        beliefs = { cl : deepcopy(potentials[cl]) for cl in potentials }")])
 T('C13', 'md-inplace-on-fresh-theta', [(INF, "                theta = omega - alpha*dL\n", "                theta = omega - alpha*dL\n                theta.combine(CliqueVector({}))\n")])
+
+# ------------------------------------------------------------------ C01
+_LSE_OLD = "        axes = self.domain.axes(attrs)\n        values = logsumexp(self.values, axis=axes) "
+K('C01', 'bp-no-copy', [(GM, "        beliefs = { cl : potentials[cl].copy() for cl in potentials }", "        beliefs = { cl : potentials[cl] for cl in potentials }")], 'bp-on-copies')
+K('C01', 'bp-drop-logZ', [(GM, "            beliefs[cl] += np.log(self.total) - logZ\n", "            beliefs[cl] += np.log(self.total)\n")], None)
+K('C01', 'bp-no-division', [(GM, "                tau = beliefs[i] - messages[(j,i)]", "                tau = beliefs[i]")], 'bp-equations')
+K('C01', 'bp-wrong-reverse-key', [(GM, "                tau = beliefs[i] - messages[(j,i)]", "                tau = beliefs[i] - messages[(i,j)]")], 'bp-equations')
+K('C01', 'bp-absorb-into-sender', [(GM, "            beliefs[j] += messages[(i,j)]", "            beliefs[i] += messages[(i,j)]")], 'bp-equations')
+K('C01', 'bp-marginalise-separator', [(GM, "            sep = beliefs[i].domain.invert(self.sep_axes[(i,j)])", "            sep = self.sep_axes[(i,j)]")], 'bp-equations')
+K('C01', 'sub-no-inf-guard', [(F, "        other = Factor(other.domain, np.where(other.values==-np.inf, 0, -other.values))\n        return self + other",
+                                 "        return self + -1*other")], 'inf-guard')
+K('C01', 'logsumexp-handrolled-unguarded', [(F, _LSE_OLD, "        axes = self.domain.axes(attrs)\n        shift = self.values.max(axis=axes, keepdims=True)\n        values = np.log(np.exp(self.values - shift).sum(axis=axes)) + shift.squeeze(axis=axes)")], 'lse-primitive')
+K('C01', 'logsumexp-naive', [(F, _LSE_OLD, "        axes = self.domain.axes(attrs)\n        values = np.log(np.exp(self.values).sum(axis=axes))")], 'lse-primitive')
+K('C01', 'triangulate-no-working-fill', [(JT, "            edges |= tmp\n            G.add_edges_from(tmp)\n            G.remove_node(node)", "            edges |= tmp\n            G.remove_node(node)")], 'elimination-fill-in')
+K('C01', 'triangulate-remove-first', [(JT, "            tmp = set(itertools.combinations(G.neighbors(node), 2))\n            edges |= tmp\n            G.add_edges_from(tmp)\n            G.remove_node(node)",
+                                         "            tmp = set(itertools.combinations(G.neighbors(node), 2))\n            G.remove_node(node)\n            edges |= tmp\n            G.add_edges_from(tmp)")], 'elimination-fill-in')
+T('C01', 'bp-hoisted-shift', [(GM, "        for cl in self.cliques:\n            beliefs[cl] += np.log(self.total) - logZ\n", "        shift = np.log(self.total) - logZ\n        for cl in self.cliques:\n            beliefs[cl] += shift\n")])
+T('C01', 'logsumexp-handrolled-guarded', [(F, _LSE_OLD, "        axes = self.domain.axes(attrs)\n        shift = self.values.max(axis=axes, keepdims=True)\n        shift = np.where(np.isfinite(shift), shift, 0)\n        values = np.log(np.exp(self.values - shift).sum(axis=axes)) + shift.squeeze(axis=axes)")])
+T('C01', 'bp-tau-ifexp', [(GM, "            if (j,i) in messages:\n                tau = beliefs[i] - messages[(j,i)]\n            else:\n                tau = beliefs[i]", "            tau = beliefs[i] - messages[(j,i)] if (j,i) in messages else beliefs[i]")])
+T('C14', 'logsumexp-handrolled-guarded', [(F, _LSE_OLD, "        axes = self.domain.axes(attrs)\n        shift = self.values.max(axis=axes, keepdims=True)\n        shift = np.where(np.isfinite(shift), shift, 0)\n        values = np.log(np.exp(self.values - shift).sum(axis=axes)) + shift.squeeze(axis=axes)")])
+
+# ------------------------------------------------------------------ C02
+K('C02', 'project-canonical-order', [(GM, "        return ans.project(attrs)", "        return ans.project(self.domain.canonical(attrs))")], 'requested-order')
+K('C02', 'project-cached-full-clique', [(GM, "                    return self.marginals[cl].project(attrs)", "                    mu = self.marginals[cl]\n                    return mu if len(attrs) == len(cl) else mu.project(attrs)")], 'requested-order')
+K('C02', 'datavector-raw-exp', [(GM, "        ans = np.exp(logp - logp.logsumexp())", "        ans = np.exp(logp)\n        ans = ans / ans.sum()")], 'exp-normalised')
+K('C02', 'datavector-no-expand', [(GM, "        wgt = ans.domain.size() / self.domain.size()\n        return ans.expand(self.domain).datavector(flatten) * wgt * self.total", "        return ans.datavector(flatten) * self.total")], 'requested-order')
+K('C02', 'cache-other-potentials', [(GM, "        self.marginals = self.belief_propagation(self.potentials)\n        sep = self.sep_axes", "        self.marginals = self.belief_propagation(self.potentials * 1.0)\n        sep = self.sep_axes")], 'cache-rule')
+K('C02', 've-total-dropped', [(GM, "    return (ans - ans.logsumexp() + np.log(total)).exp()", "    return (ans - ans.logsumexp()).exp()")], 've-equations')
+K('C02', 'many-wrong-key', [(GM, "                    answers[proj] = results[attr].project(proj)", "                    answers[attr] = results[attr].project(proj)")], 'requested-order')
+K('C02', 'project-elim-all', [(GM, "        elim = self.domain.invert(attrs)", "        elim = self.domain.invert(attrs[:1])")], 've-equations')
+K('C02', 'krondot-sorted-attrs', [(GM, "        elim = self.domain.attrs\n        for attr, Q in zip(elim, matrices):", "        elim = sorted(self.domain.attrs)\n        for attr, Q in zip(elim, matrices):")], 'requested-order')
+T('C02', 've-normalisation-split', [(GM, "    return (ans - ans.logsumexp() + np.log(total)).exp()", "    ans = ans - ans.logsumexp()\n    ans = ans + np.log(total)\n    return ans.exp()")])
+T('C02', 'project-tuple-always', [(GM, "        if type(attrs) is list:\n            attrs = tuple(attrs)\n        if hasattr(self, 'marginals'):", "        attrs = tuple(attrs)\n        if hasattr(self, 'marginals'):")])
